@@ -17,7 +17,7 @@ RULE = ("file-backed SqliteStorage with lazy commit. Ground truth: every worker 
         "idle, read then idle, each write kind: insert / bulk / replace / replace_last / delete / upsert) and checks "
         "through a second read-only connection that the write is committed when it returns. Reach: the same scenario "
         "and generated trickle/burst/idle schedules under a virtual clock patched into the sqlite module (pauses 0 s "
-        ".. 1 h); virtual results count only in a worker whose virtual twin of the real scenario gave the same "
+        ".. 1 year, with mass on whole days and whole days + a few seconds); virtual results count only in a worker whose virtual twin of the real scenario gave the same "
         "verdict as real time. evaluations = event writes judged after a pause >= 12 s; non-trivial = there were "
         "uncommitted writes pending before the pause; signature = (clock, write kind, pause class, pending class, "
         "previous op kind)")
@@ -137,7 +137,8 @@ def _record(ctx, judged, case, weight_key):
     for ok, info in judged:
         ctx.count(weight_key)
         ctx.count("aged_writes_judged")
-        pc = 0 if info["pause"] < 13 else (1 if info["pause"] < 60 else 2)
+        pc = 0 if info["pause"] < 13 else (1 if info["pause"] < 60 else (2 if info["pause"] < 86399 else (
+            3 if info["pause"] % 86400 < 10 else 4)))
         pend = 0 if info["pending_before"] == 0 else (1 if info["pending_before"] < 10 else 2)
         ctx.sigs.add(canon([info["clock"], info["write"], pc, pend, info["prev"]]))
         if info["pending_before"]:
@@ -183,7 +184,9 @@ def worker(ctx):
             for i in range(rng.randrange(2, 30)):
                 kind = rng.choice(["insert", "insert", "insert", "bulk", "replace", "replace_last", "delete", "upsert", "read",
                                    "delete_missing"])
-                pause = rng.choice([0, 0, 0, 0.5, 3, 9, 10.5, 11.5, 12, 12.5, 15, 60, 3600])
+                pause = rng.choice([0, 0, 0, 0.5, 3, 9, 10.5, 11.5, 12, 12.5, 15, 60, 3600, 86399, 86400, 86400, 86404, 86409.5,
+                                    86411, 2 * 86400 + 3, 7 * 86400, 30 * 86400 + 6 * 3600, 365 * 86400 + 1,
+                                    rng.randrange(12, 40 * 86400) + rng.random()])
                 steps.append((pause, _op(kind, rng.randrange(1000))))
             case = dict(kind="virtual", schedule=[(p, s["op"]) for p, s in steps])
             judged = run_schedule(steps, ctx, "virtual", _virtual_sleeper)
